@@ -16,6 +16,8 @@
 (*   ball   : the uncaught ball when status = "error"                                       *)
 (*   ev     : observable event produced by the step that led to this state, or NoEv         *)
 (*   qv     : number of query variables (store slots 1..qv)                                 *)
+(*   vardep : TRUE once a setof/3 had to order two terms whose order hinges on the order of *)
+(*            two distinct unbound variables (implementation dependent, ISO 7.2)            *)
 (*   ukeys  : the predicate keys of the program text (constant); their call ports are the   *)
 (*            observable "call" events                                                      *)
 EXTENDS Terms, IOUtils
@@ -182,6 +184,8 @@ GroupSol(G, n, isSet) ==
       ts2 == IF isSet THEN SortTerms(ts, TRUE) ELSE ts
       t == C("-", <<w, MkList(ts2)>>)
   IN Renum(t, TermVars(t), 0)
+\* over-approximation of "sorting some group needs the order of two distinct variables"
+AccDep(S) == \E i, j \in 1..Len(S) : i < j /\ DepL(<< <<S[i][3][2], S[j][3][2]>> >>)
 RECURSIVE GroupSols(_,_,_)
 GroupSols(S, n, isSet) == IF S = <<>> THEN <<>> ELSE <<GroupSol(GroupOf(S), n, isSet)>> \o GroupSols(RestOf(S), n, isSet)
 
@@ -199,7 +203,8 @@ Backtrack(s) ==
             [] cp.k = "not" -> {[Silent(s) EXCEPT !.cps = below, !.bind = cp.bind, !.goals = cp.rest]}  \* G failed: \+ G succeeds
             [] cp.k = "bagof" ->
                  IF cp.acc = <<>> THEN {[SetFail(s) EXCEPT !.cps = below]}         \* no solution: bagof fails
-                 ELSE {TrySols(s, C("-", <<cp.witness, cp.inst>>), GroupSols(cp.acc, cp.nacc, cp.isSet), cp.rest, cp.bind, below)}
+                 ELSE {[TrySols(s, C("-", <<cp.witness, cp.inst>>), GroupSols(cp.acc, cp.nacc, cp.isSet), cp.rest, cp.bind, below)
+                          EXCEPT !.vardep = s.vardep \/ (cp.isSet /\ AccDep(cp.acc))]}
             [] cp.k = "findall" ->
                  LET u == UnifyS(cp.inst, Shift(MkList(cp.acc), Len(cp.bind)), cp.bind \o Fresh(cp.nacc)) IN
                  {IF u.sto THEN Sto(s) ELSE IF u.ok THEN [Silent(s) EXCEPT !.cps = below, !.bind = u.b, !.goals = cp.rest]
@@ -431,7 +436,7 @@ Judged(s) == s.status \in {"done", "error", "closed"}     \* terminal states who
 \* the query's variables are store slots 1..n; the first qv of them are reported in answers
 InitStateX(db, query, qv, n) ==
   [goals |-> <<Frame(C("call", <<query>>), 0)>>, bind |-> Fresh(n), cps |-> <<>>, db |-> db, out |-> <<>>,
-   nid |-> 1000, status |-> "run", ball |-> TrueA, ev |-> NoEv, qv |-> qv,
+   nid |-> 1000, status |-> "run", ball |-> TrueA, ev |-> NoEv, qv |-> qv, vardep |-> FALSE,
    ukeys |-> { db[i].key : i \in 1..Len(db) }]
 InitState(db, query, qv) == InitStateX(db, query, qv, qv)
 =============================================================================
